@@ -125,7 +125,7 @@ func payloadFor(name string, k int) []byte {
 }
 
 func run(r *mon.Run) {
-	r.Rule("all registered names (Produce, name syntax, uniqueness, dynamic type DPT_<main><sub>), all exported DPT_* types with the Datapoint method set found by parsing the package source, unknown-name strings, instance independence (decode into one instance, compare others / later Produce calls / the list), and 16 goroutines x Produce/Unpack/ListSupportedTypes under the race detector. Distinct = distinct (check kind, name or string); non-trivial = every case")
+	r.Rule("all registered names (Produce, name syntax, uniqueness, dynamic type DPT_<main><sub>), all exported DPT_* types with the Datapoint method set found by parsing the package source, unknown-name strings, instance independence (decode into one instance, compare others / later Produce calls / the list), and 16 goroutines released together x Produce/Unpack/ListSupportedTypes under the race detector (own name sequences, then same-name contention on four hot names; dynamic type and zero value of every produced instance; kept instances pairwise distinct objects). Distinct = distinct (check kind, name or string); non-trivial = every case")
 	names := dptx.Names()
 	listed := map[string]int{}
 	for _, n := range dpt.ListSupportedTypes() {
@@ -236,33 +236,65 @@ func run(r *mon.Run) {
 	if !reflect.DeepEqual(listBefore, dptx.Names()) {
 		r.Violate("list.changed", nil, nil, "ListSupportedTypes changed after decoding into instances")
 	}
-	// concurrent phase
+	// concurrent phase: 16 goroutines released together; in the first half every
+	// goroutine walks its own sequence of names, in the second half all of them
+	// hammer the same few names (same-name contention). Every produced instance
+	// must have the type its name bears and be zero; every instance stays with
+	// its owner; afterwards all instances kept alive must be pairwise distinct
+	// objects (an allocator handing out one object twice shows up here even if
+	// no overwrite happened to be observed).
 	G := 16
-	rounds := r.Pick(60, 3000)
+	rounds := r.Pick(1500, 20000)
 	var wg sync.WaitGroup
 	var ops int64
+	hot := []string{names[0], names[len(names)/3], names[len(names)/2], names[len(names)-1]}
+	start := make(chan struct{})
+	kept := make([][]dpt.Datapoint, G)
+	keptName := make([][]string, G)
+	typeOK := func(n string, d dpt.Datapoint) bool {
+		rt := reflect.TypeOf(d)
+		return rt.Kind() == reflect.Ptr && rt.Elem().Name() == "DPT_"+strings.ReplaceAll(n, ".", "")
+	}
 	for g := 0; g < G; g++ {
 		wg.Add(1)
 		go func(g int) {
 			defer wg.Done()
+			<-start
 			for i := 0; i < rounds; i++ {
 				n := names[(g*31+i*7)%len(names)]
+				if i >= rounds/2 {
+					n = hot[(i/4)%len(hot)]
+				}
 				a := dptx.New(n)
 				if a == nil {
+					r.Violate("produce.failed", map[string]string{"name": n}, n, "concurrent: Produce(%q) reported the registered name as unknown", n)
 					continue
+				}
+				if !typeOK(n, a) {
+					r.Violate("produce.type", map[string]string{"name": n}, n, "concurrent: Produce(%q) yielded a %s", n, reflect.TypeOf(a))
+					continue
+				}
+				if !reflect.ValueOf(a).Elem().IsZero() {
+					r.Violate("instance.dependent", map[string]string{"name": n}, n, "concurrent: Produce(%q) yielded the non-zero value %s", n, dptx.Show(a))
+				}
+				if i%8 == 0 && len(kept[g]) < 4000 {
+					kept[g] = append(kept[g], a)
+					keptName[g] = append(keptName[g], n)
 				}
 				p := payloadFor(n, g*1000+i)
 				if p != nil {
 					if err, pan := dptx.Unpack(a, p); err == nil && pan == "" {
 						b := dptx.New(n)
-						if b != nil && !reflect.ValueOf(b).Elem().IsZero() {
+						if b != nil && typeOK(n, b) && !reflect.ValueOf(b).Elem().IsZero() {
 							r.Violate("instance.dependent", map[string]string{"name": n}, n, "concurrent: Produce(%q) yielded non-zero %s after another goroutine decoded %x", n, dptx.Show(b), p)
 						}
 						// our own instance must still hold our value
 						c := dptx.New(n)
-						dptx.Unpack(c, p)
-						if !dptx.Equal(a, c) {
-							r.Violate("instance.dependent", map[string]string{"name": n}, n, "concurrent: instance of %q changed under its owner", n)
+						if c != nil && typeOK(n, c) {
+							dptx.Unpack(c, p)
+							if !dptx.Equal(a, c) {
+								r.Violate("instance.dependent", map[string]string{"name": n}, n, "concurrent: instance of %q changed under its owner", n)
+							}
 						}
 					}
 				}
@@ -278,7 +310,26 @@ func run(r *mon.Run) {
 			}
 		}(g)
 	}
+	close(start)
 	wg.Wait()
+	seenPtr := map[uintptr]string{}
+	keptTotal := 0
+	for g := range kept {
+		for i, d := range kept[g] {
+			keptTotal++
+			ptr := reflect.ValueOf(d).Pointer()
+			if reflect.TypeOf(d).Elem().Size() == 0 {
+				continue // zero-size values may legitimately share an address
+			}
+			if other, dup := seenPtr[ptr]; dup {
+				r.Violate("instance.shared", map[string]string{"name": keptName[g][i]}, keptName[g][i], "concurrent: two Produce calls (%q and %q) returned the same object", keptName[g][i], other)
+				break
+			}
+			seenPtr[ptr] = keptName[g][i]
+		}
+	}
+	runtime.KeepAlive(kept)
+	r.Observe("concurrent_instances_checked_pairwise_distinct", keptTotal)
 	r.Eval(ops)
 	r.Observe("concurrent_goroutines", G)
 	r.Observe("concurrent_ops", ops)
